@@ -259,6 +259,18 @@ static inline void verif_lib_anchor(void) { float f__ = roundf(0.5f) + floorf(0.
 #define verif_atan2(x, y) __builtin_atan2(x, y)
 #endif
 
+/* std model support */
+typedef struct verif_ctrl { long cnt; } verif_ctrl;
+#ifdef VERIF_CBMC
+void *malloc(size_t);
+void free(void *);
+/* allocation never fails (assumption listed in the evidence) */
+static inline void *verif_malloc(size_t n) { void *p = malloc(n); __CPROVER_assume(p != 0); return p; }
+#else
+#include <stdlib.h>
+#define verif_malloc(n) malloc(n)
+#endif
+
 /* exceptions: class tag of the exception in flight (0 = none) */
 #ifndef VERIF_REPLAY
 extern int __verif_exc;
